@@ -269,6 +269,13 @@ theorem source_shapes :
     SH_CSV_WRITER_BUILD_lost = false ∧
     SH_CSV_PARSER_lost = false ∧
     SH_CSV_NULL_lost = false ∧
+    SH_LIST_VALUES_lost = false ∧
+    SH_MAP_VALUES_lost = false ∧
+    SH_VIEW_NULLS_lost = false ∧
+    SH_UUID_VIEW_lost = false ∧
+    SH_OCF_HEADER_lost = false ∧
+    SH_OCF_HEADER_PICK_lost = false ∧
+    SH_TRAILING_BYTES_lost = false ∧
     SH_TAPE_ESCAPES_lost = false ∧
     SH_TAPE_STRING_lost = false ∧
     SH_CSV_WRITER_DEFAULTS_lost = false := by
